@@ -5,5 +5,7 @@
 // number of plans in the exhaustive part of a profile (0 = none); indices below it enumerate
 uint64_t gen_enum_count(const std::string &prop);
 Plan gen_plan(const std::string &prop, uint64_t seed, uint64_t idx, int qcap);
+// thorough tier: longer histories, larger tables (set once by the worker from --tier)
+extern bool g_gen_thorough;
 // fault-free variant of a plan (eager schedule): rx/tx fault ops removed
 Plan plan_eager(const Plan &p);
